@@ -66,6 +66,7 @@
 package main
 
 import (
+	"bufio"
 	"bytes"
 	"crypto/sha256"
 	"encoding/hex"
@@ -401,6 +402,7 @@ type Obs struct {
 	B   []Seg  `json:"b,omitempty"`
 	V   bool   `json:"v,omitempty"`
 	Msg string `json:"msg,omitempty"`
+	Pos *int64 `json:"pos,omitempty"` // shaped readers: where the reader stands after the call (bytes of the underlying stream)
 	d   []byte
 }
 
@@ -533,7 +535,9 @@ type Op struct {
 	Fault  string  `json:"fault,omitempty"`
 	B      []Seg   `json:"b,omitempty"`
 	H      int     `json:"h"`
-	E      int     `json:"e,omitempty"` // user store: the error code it injects
+	E      int     `json:"e,omitempty"`     // user store: the error code it injects
+	Shape  string  `json:"shape,omitempty"` // create: the concrete reader type handed in (B = the whole underlying stream)
+	K      int     `json:"k,omitempty"`     // ... positioned at this offset before the call: the content supplied is B[K:]
 	Ls     *Ls     `json:"ls,omitempty"`
 	d      []byte
 	plan   []Chunk
@@ -692,6 +696,135 @@ func (g *gen) content() []byte {
 	}
 }
 
+// ---- concrete reader types handed to Create ---------------------------------
+//
+// Create takes an io.Reader; callers hand in *bytes.Reader, *strings.Reader,
+// *os.File, *io.SectionReader, *bytes.Buffer ... which also implement Seeker,
+// WriterTo, ReaderFrom (io.Copy's fast paths), and which need not stand at
+// their beginning (a header was read before).  The content supplied is what
+// can be read from the reader's CURRENT position.
+
+type shapedInput struct {
+	r    io.Reader
+	pos  func() int64 // position in the whole underlying stream
+	done func()
+}
+
+// custom: a user type that is a ReadSeeker and a WriterTo over its own buffer.
+type customRS struct {
+	d   []byte
+	off int64
+}
+
+func (c *customRS) Read(p []byte) (int, error) {
+	if c.off >= int64(len(c.d)) {
+		return 0, io.EOF
+	}
+	n := copy(p, c.d[c.off:])
+	if n > 3 {
+		n = 3 + (n-3)/2 // short reads
+	}
+	c.off += int64(n)
+	return n, nil
+}
+
+func (c *customRS) Seek(off int64, whence int) (int64, error) {
+	switch whence {
+	case io.SeekCurrent:
+		off += c.off
+	case io.SeekEnd:
+		off += int64(len(c.d))
+	}
+	if off < 0 {
+		return 0, errors.New("negative position")
+	}
+	c.off = off
+	return off, nil
+}
+
+func (c *customRS) WriteTo(w io.Writer) (int64, error) {
+	if c.off >= int64(len(c.d)) {
+		return 0, nil
+	}
+	n, err := w.Write(c.d[c.off:])
+	c.off += int64(n)
+	return int64(n), err
+}
+
+var shapeNames = []string{"bytes", "strings", "file", "section", "buffer", "custom", "wrapped", "bufio"}
+
+func mkShaped(shape string, whole []byte, k int) *shapedInput {
+	seekPos := func(s io.Seeker) func() int64 {
+		return func() int64 { p, _ := s.Seek(0, io.SeekCurrent); return p }
+	}
+	nop := func() {}
+	switch shape {
+	case "bytes":
+		r := bytes.NewReader(whole)
+		r.Seek(int64(k), io.SeekStart)
+		return &shapedInput{r, seekPos(r), nop}
+	case "strings":
+		r := strings.NewReader(string(whole))
+		r.Seek(int64(k), io.SeekStart)
+		return &shapedInput{r, seekPos(r), nop}
+	case "file":
+		f, err := os.CreateTemp(scratch, "input")
+		if err != nil {
+			panic(err)
+		}
+		f.Write(whole)
+		f.Seek(int64(k), io.SeekStart)
+		return &shapedInput{f, seekPos(f), func() { f.Close(); os.Remove(f.Name()) }}
+	case "section":
+		// the stream is a section of something larger; Seek(0) is the section's start
+		under := append([]byte("#pad#"), whole...)
+		under = append(under, "#tail#"...)
+		r := io.NewSectionReader(bytes.NewReader(under), 5, int64(len(whole)))
+		r.Seek(int64(k), io.SeekStart)
+		return &shapedInput{r, seekPos(r), nop}
+	case "buffer":
+		b := bytes.NewBuffer(append([]byte{}, whole...))
+		b.Next(k)
+		return &shapedInput{b, func() int64 { return int64(len(whole) - b.Len()) }, nop}
+	case "custom":
+		r := &customRS{d: whole, off: int64(k)}
+		return &shapedInput{r, func() int64 { return r.off }, nop}
+	case "bufio":
+		under := bytes.NewReader(whole)
+		r := bufio.NewReaderSize(under, 16)
+		r.Discard(k)
+		return &shapedInput{r, func() int64 { p, _ := under.Seek(0, io.SeekCurrent); return p - int64(r.Buffered()) }, nop}
+	default: // wrapped: nothing but Read is visible
+		under := bytes.NewReader(whole)
+		under.Seek(int64(k), io.SeekStart)
+		return &shapedInput{struct{ io.Reader }{under}, seekPos(under), nop}
+	}
+}
+
+// every reader type, at offsets 0, 1, 7, the middle and the end, for a small and a copy-buffer-sized
+// stream: create, look the content up, create the same again (already stored), through fs, mem and mapped
+func (g *gen) shapeCases() {
+	r := g.r
+	for _, L := range []int{24, 40000} {
+		for si, shape := range shapeNames {
+			whole := newStream(r, L)
+			var fops, mops []Op
+			for _, k := range []int{0, 1, 7, L / 2, L} {
+				content := whole[k:]
+				kc, kw := shaHex(content), shaHex(whole)
+				fops = append(fops, Op{Op: "create", Shape: shape, K: k, d: whole},
+					Op{Op: "has", Key: kc}, Op{Op: "open", Key: kc}, Op{Op: "has", Key: kw},
+					Op{Op: "create", Shape: shape, K: k, d: whole})
+				mops = append(mops, Op{Op: []string{"create", "pcreate"}[(si+k)%2], Shape: shape, K: k, d: whole},
+					Op{Op: "has", Key: kc}, Op{Op: "popen", Key: kc}, Op{Op: "phas", Key: kw},
+					Op{Op: []string{"pcreate", "create"}[(si+k)%2], Shape: shape, K: k, d: whole})
+			}
+			g.runFsOps("fs-shapes", fops, false)
+			g.runMemOps("mem-shapes", "mem", mops)
+		}
+	}
+}
+
 // ---- fs histories -----------------------------------------------------------
 
 type fsEnv struct {
@@ -789,6 +922,17 @@ func (g *gen) runFsOps(stream string, ops []Op, strays bool) {
 		var ob Obs
 		switch op.Op {
 		case "create":
+			if op.Shape != "" {
+				in := mkShaped(op.Shape, op.d, op.K)
+				ob = createObs(e.o, in.r)
+				pos := in.pos()
+				ob.Pos = &pos
+				in.done()
+				op.Script = ScriptJ{plan(op.d[op.K:], stEOF, 0)}
+				op.B = segsOf(op.d)
+				tab.add(op.d[op.K:])
+				break
+			}
 			sr := newScript(op.plan)
 			var undo func()
 			switch op.Fault {
@@ -1687,6 +1831,21 @@ func (g *gen) runMemOps(stream, kind string, ops []Op) {
 				ob = Obs{T: "other", Msg: "no such handle"}
 			}
 		case "create", "pcreate":
+			if op.Shape != "" {
+				in := mkShaped(op.Shape, op.d, op.K)
+				if op.Op == "create" {
+					ob = createObs(objs, in.r)
+				} else {
+					ob = createObs(mapped, in.r)
+				}
+				pos := in.pos()
+				ob.Pos = &pos
+				in.done()
+				op.Script = ScriptJ{plan(op.d[op.K:], stEOF, 0)}
+				op.B = segsOf(op.d)
+				tab.add(op.d[op.K:])
+				break
+			}
 			sr := newScript(op.plan)
 			if op.Op == "create" {
 				ob = createObs(objs, sr)
@@ -2595,6 +2754,7 @@ func main() {
 		g.ctorCases()
 	}
 	if on("fshist") {
+		g.shapeCases()
 		g.fsHistories(*n)
 	}
 	if on("sched") {
